@@ -27,6 +27,10 @@ class H5Group:
         self.h5obj = self.group
 
     def _create_h5obj(self):
+        if self._group is not None and self._group and self._group.name:
+            # this handle already stands for an object of the file: keep it
+            # (the link it was opened through may be gone or lead elsewhere)
+            return
         if self.name in self._parent:
             self.group = self._parent[self.name]
         else:
